@@ -38,7 +38,8 @@ _op = st.one_of(
               st.integers(0, len(CONTENTS) - 1)),
     st.tuples(st.just('touch'), _F),
     st.tuples(st.just('parse_inflight2'), _F, _V, _D, st.sampled_from(MODES), st.integers(0, len(CONTENTS) - 1), st.sampled_from(MODES)),
-    st.tuples(st.just('parse_aborted'), _F, _V, _D, st.sampled_from(MODES), st.integers(1, 400)),
+    st.tuples(st.just('parse_aborted'), _F, _V, _D, st.sampled_from(['cache', 'cache', 'none']), st.integers(1, 400)),
+    st.tuples(st.just('parse_save_fails'), _F, _V, st.sampled_from(['cache', 'cache+diff', 'cache+diff']), st.booleans()),
     st.tuples(st.just('copy'), _F, _F),
     st.tuples(st.just('write_all'), st.integers(0, len(CONTENTS) - 1)),
     st.tuples(st.just('drop')),
@@ -191,21 +192,49 @@ def run_history(ops, allow_inflight=True):
                 if r.stdout != exp:
                     return ('stale-or-foreign-tree+in-restarted-process', 'step %d %r: got %s' % (step, op, short(r.stdout.decode('utf-8', 'replace'), 100))), info
             elif kind == 'parse_aborted':
-                # a parse that is interrupted (exception at the n-th line executed in cache.py / grammar.py / diff.py: between the
-                # read and the save, inside the save, between an in-place update and its registration ...); the caller catches the
-                # exception and goes on - every LATER parse must still be right
+                # a parse that is interrupted (exception at the n-th line executed in cache.py / grammar.py / file_io.py: between the
+                # read and the save, inside the save ...); the caller catches the exception and goes on - every LATER parse must
+                # still be right.  (Not drawn with diff_cache: an update in place that is interrupted half-way is outside the statement.)
                 f = w.files[op[1]]
                 g = grammar(VERS[op[2]])
                 mode = op[4]
                 kw = dict(cache=mode.startswith('cache'), diff_cache='diff' in mode, cache_path=w.dirs[op[3]])
                 try:
-                    if aborted(lambda: g.parse(path=f, **kw), op[5], files=('cache.py', 'grammar.py', 'diff.py', 'file_io.py')):
+                    if aborted(lambda: g.parse(path=f, **kw), op[5], files=('cache.py', 'grammar.py', 'file_io.py')):
                         info['aborted'] = info.get('aborted', 0) + 1
                 except Exception:
                     pass
                 w.restamp()
                 if kw['cache'] or kw['diff_cache']:
                     cached.add(f)
+            elif kind == 'parse_save_fails':
+                # the cache directory cannot be written (a regular file stands where the directory should be): the library warns;
+                # with warnings turned into errors (python -W error, pytest) that warning ends the call - after the tree in memory
+                # may already have been updated in place.  The caller goes on; every LATER parse must still be right.
+                import warnings
+                f = w.files[op[1]]
+                g = grammar(VERS[op[2]])
+                blocked = os.path.join(w.root, 'blocked')
+                if not os.path.exists(blocked):
+                    with open(blocked, 'w') as fh:
+                        fh.write('not a directory')
+                kw = dict(cache=True, diff_cache='diff' in op[3], cache_path=blocked)
+                try:
+                    with warnings.catch_warnings():
+                        warnings.simplefilter('error' if op[4] else 'ignore')
+                        m = g.parse(path=f, **kw)
+                    if first_tree_diff(m, g.parse(w.model[f])) is not None:
+                        return ('stale-or-foreign-tree+save-fails', 'step %d %r: returned code %s, file content %s'
+                                % (step, op, short(m.get_code(), 60), short(w.model[f], 60))), info
+                except Warning:
+                    info['save_failed'] = info.get('save_failed', 0) + 1
+                except Exception as e:
+                    sig, det = crash_signature(e)
+                    return (sig, 'step %d %r: %s' % (step, op, det)), info
+                cached.add(f)
+                if f in dirty:
+                    info['wrote_after_cached_then_parsed'] = True
+                    dirty.discard(f)
             elif kind in ('parse', 'parse_inflight', 'parse_inflight2'):
                 f = w.files[op[1]]
                 v = VERS[op[2]]
@@ -321,7 +350,7 @@ class C16(Prop):
             'directories in a private temp root; operations {write file from a pool of 14 contents (mtime advances on an owned logical '
             'clock), copy the content of one file to another, write the same content to all files, touch, parse by path with cache / cache+diff_cache / no cache / diff_cache only, parse with a write in flight (FileIO '
             'subclass that overwrites the file right after parso read it), drop the in-memory cache (what a restart does), delete a cache '
-            'directory, force memory eviction, a parse with a write in flight *and* a second reader thread that starts right after that write, a parse that is aborted by an exception at the n-th line executed in cache.py/grammar.py/diff.py/file_io.py (the caller goes on)}; one third of the histories are *pair histories* (two paths through the same grammar and cache directory: both parsed, one changed - often from identical contents -, both parsed again, random operations in between). All timestamps are kept on one logical clock: pickles written during a call are '
+            'directory, force memory eviction, a parse with a write in flight *and* a second reader thread that starts right after that write, a parse that is aborted by an exception at the n-th line executed in cache.py/grammar.py/file_io.py (the caller goes on), a parse whose cache directory cannot be written - with warnings as errors that ends the call after a possible in-place update}; one third of the histories are *pair histories* (two paths through the same grammar and cache directory: both parsed, one changed - often from identical contents -, both parsed again, random operations in between). All timestamps are kept on one logical clock: pickles written during a call are '
             're-stamped with the next tick. Oracle (dict-of-files model): every parse returns a tree equal (own comparator) to a fresh '
             'parse of the content the model says was on disk at read time. Non-trivial: history with a write after a cached parse of the '
             'same file followed by another parse of it. Distinct by operation sequence.')
@@ -346,6 +375,8 @@ class C16(Prop):
         kinds = {o[0] for o in ops}
         if info.get('restarts'):
             classes.append('real-restart')
+        if info.get('save_failed'):
+            classes.append('save-fails-with-warnings-as-errors')
         if info.get('aborted'):
             classes.append('parse-aborted-midway')
         for k in ('drop', 'rmdir', 'evict', 'touch', 'copy', 'write_all'):
